@@ -109,6 +109,24 @@ def dispatch_scenario(rng: random.Random, *, family=None, with_invalid=True, sto
     return Scenario(lines, meta)
 
 
+def abandoned_prelude(rng, jobs) -> list[str]:
+    """An episode that is started, looked at (the clock, the available operations: whatever the dispatcher memoises for them) and
+    abandoned with `reset` before it is complete: the episode that follows is an episode like the first."""
+    tr = gen.Tracker(jobs)
+    lines = []
+    for _ in range(rng.randint(1, max(1, gen.num_ops(jobs) - 1))):
+        if tr.done():
+            break
+        j, p, m = gen.gen_valid_request(rng, tr, rng.choice(["uniform", "one_job_first"]))
+        tr.take(j)
+        lines.append(f"disp {j} {p} {m}")
+        if rng.random() < 0.3:
+            lines.append("q current_time")
+    lines += rng.sample(["q current_time", "q available", "q available_machines", "q available_jobs"], rng.randint(1, 3))
+    lines.append("reset")
+    return lines
+
+
 def exhaustive_small(kind: str):
     """Exhaustive small scope (thorough tier, supporting evidence): EVERY instance with <= 2 jobs x <= 2 operations on 2
     machines with durations in {0, 1, 2} (single-machine operations), EVERY complete interleaving of its jobs, probed
